@@ -33,7 +33,7 @@ ASSUMPTIONS = ["trees are well formed (built by the library or by Tree(nodes) fr
                "transcendental functions are uninterpreted in the model (oracle = python math on the same arguments)"]
 TRUSTED = ["models: coq/theories/Tree.v TreeIdx.v TreeEval.v; check functions coq/theories/C09Check.v",
            "table translator harness/translate_symtable.py (AST of _tree.py, fail-closed)"]
-THEORIES = ["Tree", "TreeIdx", "TreeEval", "TreeProofs", "TreeProofs2", "TreeEvalProofs", "TreeCR", "C09Check",
+THEORIES = ["Tree", "TreeIdx", "TreeEval", "TreeProofs", "TreeProofs2", "TreeEvalProofs", "TreeCR", "TreeCRk", "C09Check",
             "GenSymTable"]
 
 IMPORTS = ("From Coq Require Import String Ascii.\nFrom Coq Require Import List Arith ZArith QArith.\n"
@@ -637,6 +637,7 @@ class Run:
         f2r = self.fam("cr2_rec", "chk_cr2_rec", "list nat * list nat * (list nat * list nat * list nat * list nat)")
         fk = self.fam("crk", "chk_crk", "list (list nat) * list (list nat) * list (list nat)")
         fk2 = self.fam("crk_vs_cr2", "chk_crk_vs_cr2", "list nat * list nat")
+        fkr = self.fam("crk_rec", "chk_crk_rec", "list (list nat) * list (list nat) * list (list nat)")
         rng = self.ctx.rng
         mk = lambda ar: L.build(rand_spec(rng, ar, "int", self.tv_int))
         tuples = [(a, b) for a in shapes2 for b in shapes2] + ktuples
@@ -685,8 +686,10 @@ class Run:
                     rep.problem("crk", "common_region (k-tree walk) on a pair differs from the recursive definition", case, "crk",
                                 True, ck2, exp, "C09_common_region_spec")
                 fk.add(f"({nll(ars)}, {nll(ck2[0])}, {nll(ck2[1])})", case)
+                fkr.add(f"({nll(ars)}, {nll(ck2[0])}, {nll(ck2[1])})", case)
             else:
                 fk.add(f"({nll(ars)}, {nll(c[0])}, {nll(c[1])})", case)
+                fkr.add(f"({nll(ars)}, {nll(c[0])}, {nll(c[1])})", case)
         rep.sample(dict(family="common_region", arities=[list(a) for a in tuples[-1]], impl=mir[-1]))
 
     # ------------------------------------------------------------------ the name table, live
